@@ -366,24 +366,29 @@ broadcast use crate::wspec::group_wrote;''')
     ce.own(OWN)
     ce.splice('has_augmentation', ret='res', ensures=['res == self.has_aug()'])
     # checkpoint after the return address register (ghost only): the fixed header is complete
-    ce.insert_before('if augmentation {', 'let ghost v3 = w.wv();\nproof { reveal(CommonInformationEntry::after_fixed_header); assert(v3 == self.after_fixed_header(old(w).wv(), eh_frame)); }\n', nth=1)
+    ce.insert_before('if augmentation {', 'let ghost v3 = w.wv();\nproof { reveal(CommonInformationEntry::after_fixed_header); assert(v3 == self.after_fixed_header(old(w).wv(), eh_frame)); assert(v3.len >= length_base); }\n', nth=1)
     ce.splice('write', ret='res', ensures=[
         f'[C14:cie-offset] res matches Ok(off) ==> off as nat == {W0}.len',
         f'[C14:cie-version] res is Ok ==> cfi_version_ok(eh_frame, {ENC}.version)',
         # FAILS on the pinned tree: the address size is never validated (finding F-wcfi-3)
         f'[C14:cie-address-size] res is Ok ==> valid_address_size({ENC}.address_size)',
         f'[C14:cie-ra-v1] res is Ok && !eh_frame && {ENC}.version == 1 ==> self.return_address_register.0 < 0x100',
-        f'[C14:cie-header] res is Ok ==> grew(self.after_header({W0}, eh_frame), {W1})',
         f'[C14:cie-closed] res is Ok ==> entry_closed({W0}, {W1}, {ENC}.format)',
         # 6.4.1: "The size of the length field plus the value of length must be an integral multiple of the address size."
+        # FAILS on the pinned tree for the 64-bit format (finding F-wcfi-4)
         f'[C14:cie-pad] res is Ok ==> ({W1}.len - {W0}.len) % ({ENC}.address_size as int) == 0',
         # (nothing is claimed about the section after an error: the entry is incomplete and the caller gives up)
-        f'[C14:frame] res is Ok ==> grew({W0}, {W1})'],
-        before=[('let augmentation = self.has_augmentation();', 'let ghost v1 = w.wv();\nproof { assert(v1 == after_cie_start(old(w).wv(), eh_frame, encoding)); }'),
-                ('if encoding.version >= 4 {', 'let ghost v2 = w.wv();\nproof { reveal(CommonInformationEntry::after_aug_string); assert(v2 == self.after_aug_string(v1)); }'),
-                ('for instruction in &self.instructions', 'let ghost hv = w.wv();\nproof { reveal(CommonInformationEntry::after_aug_data); assert(hv == self.after_header(old(w).wv(), eh_frame)); self.lemma_header_grew(old(w).wv(), eh_frame); }'),
+        f'[C14:frame] res is Ok ==> {W1}.len >= {W0}.len && {W1}.be == {W0}.be'],
+        # [C14:cie-header] is a CHECKPOINT assertion: when the instruction loop starts the section is exactly the old
+        # section followed by the header fields (see NOT DECIDED in the header for the step to the function exit)
+        before=[('let augmentation = self.has_augmentation();', 'let ghost v1 = w.wv();\nproof { assert(v1 == after_cie_start(old(w).wv(), eh_frame, encoding)); assert(v1.len >= length_base); }'),
+                ('if encoding.version >= 4 {', 'let ghost v2 = w.wv();\nproof { reveal(CommonInformationEntry::after_aug_string); assert(v2 == self.after_aug_string(v1)); '
+                 'self.lemma_aug_string_grew(v1); assert(v2.len >= length_base); }'),
+                ('for instruction in &self.instructions', 'let ghost hv = w.wv();\nproof { reveal(CommonInformationEntry::after_aug_data);\n'
+                 'assert(hv == self.after_header(old(w).wv(), eh_frame)); // [C14:cie-header]\n'
+                 'self.lemma_aug_data_grew(v3); assert(hv.len >= length_base); }'),
                 ('write_nop(', 'proof { axiom_section_len::<W>(*w); }')],
-        loops={0: 'invariant grew(hv, w.wv())'})
+        loops={0: 'invariant w.wv().len >= length_base, w.wv().be == old(w).wv().be'})
     sk.add('write::cfi', ce)
 
     fe = wc.item(r'^impl FrameDescriptionEntry \{', label='FrameDescriptionEntry')
